@@ -69,6 +69,136 @@ def inlinable(facts, t, stack, want=None):
     return ck
 
 
+def _normal_succ(blocks, b):
+    t = blocks[b]["t"]
+    k = t["k"]
+    if k in ("goto", "drop", "assert", "false_edge", "false_unwind"):
+        return [t["t"]]
+    if k == "call":
+        return [t["t"]] if t.get("t") is not None else []
+    if k == "switch":
+        return [tb for _, tb in t["ts"]] + [t["else"]]
+    if k == "yield":
+        return [t["t"]]
+    return []
+
+
+def _const_result(st, ret_local):
+    """('variant', name) / ('bool', b) when the statement assigns a literal enum variant / bool to the whole return local."""
+    if st.get("k") != "assign" or st["p"]["l"] != ret_local or st["p"]["p"]:
+        return None
+    r = st["r"]
+    if r["k"] == "agg" and "adt" in r and r.get("v") is not None:
+        return ("variant", r["v"])
+    if r["k"] == "use" and "k" in r["o"] and r["o"]["k"].get("v") in ("true", "false"):
+        return ("bool", r["o"]["k"]["v"] == "true")
+    return None
+
+
+def _thread_returns(d, blocks, lo, hi, ret_local, glue, level, stack_of):
+    """Jump threading across the spliced return: when a return path of the callee leaves with a literal result
+    (`return None`, `Some(x)`, `true`) and the caller immediately branches on that result (`if let Some(..) = helper()`,
+    `match helper()`, `if helper()`), the path is connected straight to the matching arm.  Without it every return path of
+    the helper would seem to reach every arm of the caller's test (the CFG alone does not relate the two)."""
+    T = blocks[glue]["t"]["t"]
+    tb = blocks[T]
+    tt = tb["t"]
+    if tt["k"] != "switch":
+        return
+    dest = blocks[glue]["s"][0]["p"]
+    op = tt["o"].get("m") or tt["o"].get("c")
+    if op is None or op["p"]:
+        return
+    # how is the switch operand computed inside T?
+    mode = None
+    vars_ = None
+    for st in tb["s"]:
+        if st.get("k") == "assign" and st["p"]["l"] == dest["l"] and len(st["p"]["p"]) <= len(dest["p"]):
+            return  # dest is rewritten before the test
+        if st.get("k") == "assign" and st["p"]["l"] == op["l"] and not st["p"]["p"]:
+            r = st["r"]
+            if r["k"] == "discr" and r["p"] == dest and "vars" in r:
+                mode, vars_ = "variant", {name: v for v, name in r["vars"]}
+            elif r["k"] == "use" and (r["o"].get("m") == dest or r["o"].get("c") == dest):
+                mode = "bool"
+            else:
+                mode = None
+    if mode is None and tt.get("oty") == "bool" and op == dest:
+        mode = "bool"
+    if mode is None:
+        return
+
+    def arm_for(res):
+        if res[0] == "variant" and mode == "variant":
+            v = vars_.get(res[1])
+            if v is None:
+                return None
+            for vv, tgt in tt["ts"]:
+                if vv == v:
+                    return tgt
+            return tt["else"]
+        if res[0] == "bool" and mode == "bool":
+            for vv, tgt in tt["ts"]:
+                if vv == "0":
+                    return tgt if not res[1] else tt["else"]
+            return None
+        return None
+
+    for a in range(lo, hi):
+        blk = blocks[a]
+        if blk.get("cleanup"):
+            continue
+        res = None
+        for st in blk["s"]:
+            c = _const_result(st, ret_local)
+            if c is not None:
+                res = c
+            elif st.get("k") == "assign" and st["p"]["l"] == ret_local:
+                res = None
+        if res is None:
+            continue
+        arm = arm_for(res)
+        if arm is None:
+            continue
+        # linear chain a -> ... -> glue
+        chain = []
+        cur = a
+        ok = True
+        for _ in range(64):
+            ns = _normal_succ(blocks, cur)
+            if len(ns) != 1:
+                ok = False
+                break
+            nxt = ns[0]
+            if nxt == glue:
+                break
+            nb_ = blocks[nxt]
+            if nb_["t"]["k"] == "call" and not is_noise(nb_["t"]):
+                ok = False
+                break
+            if any(st.get("k") == "assign" and st["p"]["l"] == ret_local for st in nb_["s"]):
+                ok = False
+                break
+            chain.append(nxt)
+            cur = nxt
+        else:
+            ok = False
+        if not ok:
+            continue
+        # duplicate chain + glue + T (with T's switch resolved) and route block a through the copies
+        prev = a
+        for src in chain + [glue, T]:
+            cp = copy.deepcopy(blocks[src])
+            nid = len(blocks)
+            blocks.append(cp)
+            level[nid] = level.get(src, 0)
+            stack_of[nid] = stack_of.get(src, ())
+            pt = blocks[prev]["t"]
+            pt["t"] = nid
+            prev = nid
+        blocks[prev]["t"] = {"k": "goto", "t": arm, "l": tt.get("l"), "threaded": True}
+
+
 def inline(facts, fn, depth=2, want=None):
     d = copy.deepcopy(fn.d)
     blocks = d["blocks"]
@@ -118,6 +248,8 @@ def inline(facts, fn, depth=2, want=None):
                            "t": {"k": "goto", "t": target, "l": t.get("l")}, "cleanup": False, "inl": ck, "file": blk.get("file")})
             level[glue] = lv
             stack_of[glue] = stack_of[b]
+        if glue is not None:
+            _thread_returns(d, blocks, db, db + nb, dl, glue, level, stack_of)
         # argument passing + jump
         for i, a in enumerate(t.get("args", [])):
             blk["s"].append({"k": "assign", "p": {"l": dl + 1 + i, "p": []}, "r": {"k": "use", "o": copy.deepcopy(a)}, "l": t.get("l"), "inl_arg": ck})
